@@ -794,7 +794,7 @@ pub fn run(args: &Args) {
         let (e, well) = match rng.below(10) {
             0 => (None, true),
             1..=5 => (Some(RtpHeaderExtension::new(0xBEDE, gens::one_byte_block(&mut rng).0)), true),
-            6 => (Some(RtpHeaderExtension::new(0x1000, gens::two_byte_block(&mut rng).0)), true),
+            6 => (Some(RtpHeaderExtension::new(0x1000 + pk!(rng, [0u16, 0, 1, 7, 15]), gens::two_byte_block(&mut rng).0)), true),
             7 => (Some(RtpHeaderExtension::new(pk!(rng, [0u16, 0x1001, 0xBEDF]), rng.bytes(8))), true),
             _ => (Some(RtpHeaderExtension::new(pk!(rng, [0xBEDEu16, 0xBEDE, 0x1000]), gens::bad_block(&mut rng))), false),
         };
